@@ -205,6 +205,8 @@ def snapshot(m):
     """all public queries of a model, as plain data"""
     from cellmlmanip.printer import Printer
     snap = {}
+    if m is None:       # a load that was refused (reported by the load operation itself)
+        return {'absent': True}
 
     def q(name, fn):
         try:
@@ -298,7 +300,15 @@ def apply_model_op(models, op, rng_seed, caller=None):
             models[idx] = None
             import gc
             gc.collect()        # the replaced model and its unit store are really gone before the next one is created
-            models[idx] = cellmlmanip.load_model(os.path.join(CELLML, rng.choice(SMALL_MODELS)), unit_store=caller)
+            doc = rng.choice(SMALL_MODELS)
+            try:
+                models[idx] = cellmlmanip.load_model(os.path.join(CELLML, doc), unit_store=caller)
+            except Exception as e:
+                # every bundled document loads in a fresh process: a refusal here comes from what other models / stores
+                # (sharing the registry or not) left behind (round-13 seed C16-21: sibling stores with one registry prefix)
+                return ('load:XVIOLATION:loading %s as model %d (unit_store=%s) raises %s although the document loads on its own: '
+                        'the units of another model or store leaked into the new one'
+                        % (doc, idx, 'S' if caller is not None else 'None', vlib.err_class(e)))
         elif kind == 'clashunit':
             # one user name, another meaning in every model
             base_, fac_ = [('volt', 0.001), ('second', 60.0), ('ampere', 1e-6)][idx % 3]
